@@ -10,13 +10,18 @@
 //	B. explicit-state search (engine opx) over all delivery sequences of genuine, duplicated and forged
 //	   parts into a PartSet made from the signed header, against a set-of-indices reference model; the
 //	   completed set reads back and decodes to the proposer's block on both reassembly paths;
-//	C. merkle.SimpleProof.Verify for every (index,total) up to a bound and every single-aunt tamper.
+//	C. merkle.SimpleProof.Verify for every (index,total) up to a bound and every single-aunt tamper;
+//	D. the same reassembly inside a real ConsensusState (synchronous driver): pre-states that know more or less
+//	   of a block A x triggers that make another block B the one to fetch x BFS over all deliveries of B's parts
+//	   with duplicates, parts of A and forgeries: the held block is the part set's block, with no stale cached
+//	   identity, and the node commits exactly B (consensus.go).
 package main
 
 import (
 	"fmt"
 	"os"
 	"sort"
+	"strings"
 	"sync"
 	"sync/atomic"
 	"time"
@@ -124,6 +129,8 @@ func replay(r *vk.Run) {
 			sig := diffSignature(dumpOfVariant(base, ps, v), dump(base))
 			r.Violation("identity-collision:"+sig, "replayed: id unchanged by "+variantName(ps, v), rc)
 		}
+	case rc.Search != "" && replayConsensus(r, rc.Search, rc.OpIDs, rc):
+		// phase D history, done
 	case rc.Search != "":
 		var c blockCfg
 		var size int
@@ -181,6 +188,14 @@ func main() {
 		t0 = time.Now()
 	}
 
+	// developer aid: C12_PHASES=D runs only the named phases (the run is then marked as not exhaustive)
+	phases := os.Getenv("C12_PHASES")
+	on := func(p string) bool { return phases == "" || strings.Contains(phases, p) }
+	if phases != "" {
+		r.Capped("developer run restricted to phases " + phases)
+		cfgs = cfgs[:1]
+	}
+
 	// ---------------- phase A, single perturbations ----------------
 	st := &identStats{partition: map[string]map[string]int{}}
 	var mu sync.Mutex
@@ -218,6 +233,9 @@ func main() {
 		plans = []searchPlan{{cfgs, 4, 1}, {[]blockCfg{{1, 0, 0}, {2, 1, 1}, {3, 3, 2}}, 6, 1}}
 	} else {
 		plans = []searchPlan{{cfgs, 8, 2}}
+	}
+	if !on("B") {
+		plans = nil
 	}
 	states, trans, searches, merges := 0, 0, 0, 0
 	var per []interface{}
@@ -281,6 +299,9 @@ func main() {
 		}
 		bigs = append(bigs, big{blockCfg{1, 0, 0}, 1}, big{blockCfg{2, 1, 1}, 1}, big{blockCfg{3, 3, 2}, 1})
 	}
+	if !on("B") {
+		bigs = nil
+	}
 	var deliveries int64
 	var bigParts int64
 	var bigDone int64
@@ -321,10 +342,28 @@ func main() {
 
 	lap("phase C (merkle)")
 
+	// ---------------- phase D: reassembly inside the consensus state machine ----------------
+	dHeights := []uint64{1}
+	if !r.Quick() {
+		dHeights = []uint64{1, 2}
+	}
+	dStates, dTrans, dSearches, dOutcomes := checkConsensusReassembly(r, dHeights)
+	states += dStates
+	trans += dTrans
+	r.Set("consensus_reassembly_searches", dSearches)
+	r.Set("consensus_reassembly_states", dStates)
+	r.Set("consensus_reassembly_transitions", dTrans)
+	r.Set("consensus_reassembly_heights", dHeights)
+	r.Set("consensus_reassembly_outcomes", dOutcomes)
+	lap("phase D (state machine)")
+
 	// ---------------- phase A, all pairs of perturbations (last: the most expensive part) ----------------
 	pairCfgs := []blockCfg{{2, 2, 1}}
 	if !r.Quick() {
 		pairCfgs = cfgs
+	}
+	if !on("A") {
+		pairCfgs = nil
 	}
 	for _, c := range pairCfgs {
 		if r.Expired() {
@@ -383,7 +422,9 @@ func main() {
 	r.Set("distinct_nontrivial", st.distinctIDs+states)
 	r.Set("rule", "A: every variant block is built fresh and both halves of its id are computed by the real code and compared with a codec-independent dump of its content (non-trivial = distinct id); "+
 		"B: BFS over delivery sequences into a real PartSet, state = set of received indices, every AddPart result and the observable set state compared with the reference (non-trivial = distinct state), completed sets read back and decoded on the consensus and block-store paths; "+
-		"C: every (index,total,leaf,aunts) case evaluated by the real SimpleProof.Verify")
+		"C: every (index,total,leaf,aunts) case evaluated by the real SimpleProof.Verify; "+
+		"D: BFS over part deliveries into a real ConsensusState after a scripted pre-state and trigger, state = driver digest + received parts of B, the held ProposalBlock compared with a fresh decode of the completed part set (hash, cached sub-hashes, re-encoding, content) and the committed block with B")
+	r.Assume("phase D: 4 validators of equal power, the node under test is not the proposer of the rounds used; candidate blocks A (2 txs) and B (3 txs, 3 parts) are valid proposals of the same height that differ in header, transactions and (height 2) LastCommit; application = csnet.TrivApp; timeouts fire only where the script says; recover mode is not entered")
 	r.Assume("block content = every exported, serialized field of Header (incl. Recover), Data.Txs, Evidence and LastCommit; Header.bloom is excluded: it is neither hashed nor transmitted (it is rebuilt from the receipts)")
 	r.Assume("the oracle is the PAIR (Block.Hash(), part-set header): which half moves is recorded as coverage (only_partset_hash_changes), not judged")
 	r.Assume("keccak-256 behaves as collision resistant on the enumerated inputs; transaction kinds: Transaction, TokenTransaction and one confidential UTXOTransaction (account input -> 2 UTXO outputs + 1 account output, built by types.NewAinTransaction on the crypto stand-in; only its encoding and hash are exercised, not its proofs); UTXO-input transactions (ring signatures, key images), ContractUpgradeTx and MultiSignAccountTx are outside the bound")
